@@ -65,9 +65,17 @@ def run_program(files: dict, flags, approved, *, pyproject: str | None = PYPROJE
                 state.update_flags = Flags(set(flags))
                 state.storage = DiscStorage(d / ".inline-snapshot" / "external")
                 R_all = []
+                loaded_modules = []
                 try:
                     for filename in sorted(d.glob("*.py")):
-                        g: dict = {"__name__": filename.stem, "__file__": str(filename)}
+                        import sys
+                        import types
+                        modname = f"vt_{filename.stem}_{id(d) & 0xffffff:x}"
+                        mod = types.ModuleType(modname)
+                        mod.__file__ = str(filename)
+                        sys.modules[modname] = mod
+                        loaded_modules.append(modname)
+                        g = mod.__dict__
                         try:
                             exec(compile(filename.read_text("utf-8"), str(filename), "exec"), g)
                         except Exception as e:  # noqa: BLE001
@@ -90,6 +98,9 @@ def run_program(files: dict, flags, approved, *, pyproject: str | None = PYPROJE
                             R_all.append((filename.name, g["R"]))
                 finally:
                     state.active = False
+                    import sys as _sys
+                    for mn in loaded_modules:
+                        _sys.modules.pop(mn, None)
                 out["R"] = R_all
 
                 changes = []
